@@ -590,6 +590,91 @@ def units(ctx, model, problems):
         ctx.sample(dict(family="units", call=calls[len(calls) // 3][3]))
 
 # ---------------------------------------------------------------------------------------------------------
+# round 2: call histories around ZSTD_generateSequences, adversarial block-level sequence producer
+R2_KEYS = {"collector1": "C06-generateSequences-collector-left-armed", "producer1": "C06-splitter-exceeds-compressBound"}
+R2_KIND_KEYS = {"splitter-partition-table-overrun": "C06-splitter-partition-table-overrun"}
+
+
+def r2_argv(desc):
+    f = desc.split()
+    if not f:
+        return None
+    if f[0] == "collector1":
+        return f[:7]
+    if f[0] == "producer1":
+        return f[:14]
+    return None
+
+
+def round2(ctx, problems):
+    """c06_r2: (a) ZSTD_generateSequences (succeeding / failing) followed by a compression on the same context while the old
+    outSeqs pages are PROT_NONE; (b) a sequence producer returning valid but worthless sequences (3-byte matches at offsets
+    that cost 3 bytes, statistics that differ between the halves of every index range) so that the post-splitter and the
+    super-block writer are driven into their worst expansion: ZSTD_compressBound(n) must still suffice."""
+    exe = core.build_harness("c06_r2", ["c06_r2.c"], extra_flags=["-w"])
+    tier = 0 if ctx.quick else 1
+
+    def one(mode):
+        pr = subprocess.run([exe, mode, str(ctx.seed), str(tier)], stdout=subprocess.PIPE, stderr=subprocess.PIPE, timeout=2400)
+        return mode, pr.returncode, pr.stdout.decode("utf-8", "replace"), pr.stderr.decode("utf-8", "replace")
+    with ThreadPoolExecutor(max_workers=2) as ex:
+        res = list(ex.map(one, ("collector", "producer")))
+    seen = {}
+    ncases = dict(collector=0, producer=0)
+    maxparts = 0
+    maxsplits = 0
+    for mode, rc, out, err in res:
+        lines = out.split("\n")
+        if rc not in (0, 1, 3) or not any(l.startswith(("DONE", "FAULT")) for l in lines):
+            problems.append(dict(kind="r2-harness-exit", mode=mode, rc=rc, err=err[-300:]))
+        for l in lines:
+            if l.startswith("CASE "):
+                d = dict(CASE_RE.findall(l))
+                if d.get("fam") == "splits":
+                    ns = int(d["splits"])
+                    maxsplits = max(maxsplits, ns)
+                    ctx.count(("r2-splits", min(ns // 32, 7), ns >= 190), nontrivial=ns > 0)
+                    continue
+                ncases[mode] += 1
+                if mode == "collector":
+                    n = int(d["n"])
+                    ctx.count(("r2-collector", d["kind"], d["entry"], d["genMode"], d["gen"] == "ok", 0 if n == 0 else 1 if n < 2000 else 2 if n <= KB128 else 3), nontrivial=n > 0)
+                else:
+                    B = int(d["B"]); parts = int(d["partsPerBlock"]); raw = int(d["raw"]); blocks = int(d["blocks"])
+                    maxparts = max(maxparts, parts)
+                    ctx.count(("r2-producer", 0 if B < 1536 else 1 if B < 4096 else 2 if B < KB128 else 3, d["split"], d["tcbs"] != "0", d["mlmix"] != "0",
+                               d["llmax"] != "0", d["lits"], d["chk"], raw == blocks, raw == 0, min(parts, 3) if parts < 100 else 4), nontrivial=True)
+                    if parts > 196:
+                        problems.append(dict(kind="splitter-more-partitions-than-its-table", case=l[:400]))
+            elif l.startswith("FAULT "):
+                m = re.match(r"FAULT sig=(\d+) addr=(\S+) bt=(\S*) :: (.*)", l)
+                desc = m.group(4) if m else l
+                fn = resolve_bt(exe, m.group(3)) if m else []
+                k = ("fault", desc.split()[0])
+                if k not in seen:
+                    seen[k] = dict(kind="memory-fault", where=fn, desc=desc, count=0, argv=r2_argv(desc))
+                seen[k]["count"] += 1
+            elif l.startswith("BAD "):
+                m = re.match(r"BAD (\S+) val=(\d+) ret=(\d+)\((.*?)\) :: (.*)", l)
+                if not m:
+                    continue
+                what, val, ret, msg, desc = m.groups()
+                k = ("bad", what, desc.split()[0])
+                if k not in seen:
+                    seen[k] = dict(kind=what, val=int(val), ret=int(ret), msg=msg, desc=desc, count=0, argv=r2_argv(desc))
+                seen[k]["count"] += 1
+    for k, v in seen.items():
+        fam = v["desc"].split()[0]
+        ctx.violation(dict(family="round2-" + fam, harness="c06_r2", **v), key=R2_KIND_KEYS.get(v["kind"], R2_KEYS.get(fam)),
+                      what="capacity discipline / size bound violated on the real code: %s (%s) x%d :: %s" %
+                           (v["kind"], ",".join(v.get("where", [])[:3]) if v.get("where") else v.get("msg", ""), v["count"], v["desc"][:160]))
+    ctx.cov["traces_validated_against_impl"] += ncases["collector"] + ncases["producer"]
+    ctx.notes["round2"] = dict(cases=ncases, max_partitions_of_one_block=maxparts, max_splits_derived=maxsplits)
+    if ncases["producer"]:
+        ctx.sample(dict(family="round2", note="adversarial sequence producer: %d cases, at most %d partitions per source block" % (ncases["producer"], maxparts)))
+
+
+# ---------------------------------------------------------------------------------------------------------
 def search_bound(ctx, exe, rng):
     """SEARCH for a concrete input on which the real ZSTD_compressBound capacity is rejected: incompressible data,
     smallest blocks, sizes where header + 3 bytes per block weigh most."""
@@ -613,6 +698,8 @@ def replay(ctx):
     rp = obj.get("replay", {})
     exe = core.build_harness("c06_sweep", ["c06_sweep.c"], extra_flags=["-w"])
     argv = rp.get("argv")
+    if argv and rp.get("harness") == "c06_r2":
+        exe = core.build_harness("c06_r2", ["c06_r2.c"], extra_flags=["-w"])
     if argv:
         rc, out, err = core.sh([exe] + [str(a) for a in argv], timeout=300)
         core.log("replay:", " ".join(str(a) for a in argv), "->", out.strip()[-400:], "rc=%d" % rc)
@@ -696,6 +783,8 @@ def run(ctx):
     core.log("C06 phase inspectors: %.1f s" % (time.time() - t0)); t0 = time.time()
     units(ctx, model, problems)
     core.log("C06 phase units: %.1f s" % (time.time() - t0)); t0 = time.time()
+    round2(ctx, problems)
+    core.log("C06 phase round 2 (collector, sequence producer): %.1f s" % (time.time() - t0)); t0 = time.time()
 
     if ctx.tier == "thorough":
         # two more seeds of the sweeps (direct oracle only)
